@@ -255,8 +255,12 @@ def run(R):
                         "ExecutionEngine::execute runs execute_select without first testing the emitted-row counter against the limit: LIMIT 0 "
                         "(or an exhausted limit) still emits the rows of one more line", [e.loc()])
         tr = [c for c in PR.calls_matching(ef, r"^alloc::vec::Vec::(truncate|drain)$") if c.bb in ef.reachable_from(e.bb)]
-        ulc = [c for c in ef.calls if any(k2 in [w.key for w in writers] for k2 in P.callee_keys(ef, c))]
-        if tr and ulc and any(c.bb in ef.reachable_from(t.bb) for t in tr for c in ulc):
+        ulc = [c.bb for c in ef.calls if any(k2 in [w.key for w in writers] for k2 in P.callee_keys(ef, c))]
+        # ... or the counting itself, when the function that did it was inlined into execute (renamed / new helper)
+        if counter:
+            ulc += [i for i, st in ef.stmts() if st["k"] == "assign" and st["rv"]["k"] == "binop" and st["rv"]["op"] in ("Add", "AddWithOverflow")
+                    and any(x["k"] in ("copy", "move") and counter in F.provenance_fields(ef, x, depth=8) for x in (st["rv"]["l"], st["rv"]["r"]))]
+        if tr and ulc and any(b_ in ef.reachable_from(t.bb) for t in tr for b_ in ulc):
             R.ok("C07.pre", "execute|truncate", "rows of a line are truncated to the remaining budget before they are counted", tr[0].loc())
         else:
             R.violation("C07.pre", "execute|no-truncate",
